@@ -125,7 +125,11 @@ func (s *SenderInterceptor) BindRemoteStream(
 			sequenceNumber: header.SequenceNumber,
 			ecn:            0, // ECN is not supported (yet).
 		}
-		s.packetChan <- p
+		select {
+		case s.packetChan <- p:
+		case <-s.close:
+			// The loop is gone (or will never run), don't block the reader.
+		}
 
 		return i, attr, nil
 	})
